@@ -53,6 +53,10 @@ pub struct Scenario {
 	/// such events by-pass the filter; but an error it raises must reach the error handler)
 	#[serde(default)]
 	pub empty_errs: bool,
+	/// the run-time throttle change is made through the public field (Changeable::replace, no change signal)
+	/// instead of the Config::throttle method: consumers are documented to read just in time
+	#[serde(default)]
+	pub throttle_via_field: bool,
 }
 
 pub const EMPTY_ERR_ID: u32 = 0xEEEE_EEEE;
@@ -408,7 +412,11 @@ pub fn run_with(sc: &Scenario, install: Option<&dyn Fn()>, side: Option<&Side>, 
 		let mut throttle_changed_us = None;
 		if let Some((at, to)) = sc.throttle_change {
 			tokio::time::sleep(Duration::from_millis(u64::from(at))).await;
-			wx.config.throttle(Duration::from_millis(u64::from(to)));
+			if sc.throttle_via_field {
+				wx.config.throttle.replace(Duration::from_millis(u64::from(to)));
+			} else {
+				wx.config.throttle(Duration::from_millis(u64::from(to)));
+			}
 			throttle_changed_us = Some(us(t0));
 		}
 		for p in producers {
